@@ -7,8 +7,10 @@ proof   : coq/proofs/Twins_Proofs.v — soundness of the twin-table decision pro
 tie     : Gen_Twins.v regenerated from the source on every run (inspect + ast + tokenize), obligations
           decided by vm_compute in props/C06.v; the login model is run by vm_compute on the same event lists
           as the real channel_authenticate_telnet/_ssh of both stacks.
-observed: paired scenarios through the real sync and asyncio driver stacks over SimDevice, the two real Telnet
-          transports over scripted sockets, and three runtime probes — compared with each other directly."""
+observed: paired scenarios through the real sync and asyncio driver stacks over SimDevice (incl. multi-event
+          interactive dialogues, c06_pairs.DialogDevice), the two real Telnet transports over scripted sockets, and
+          three runtime probes — compared with each other directly.  A broken twin-diff obligation for function F
+          makes focus_search run the scenario families that exercise F (c06_pairs.FN_FAMILY) with extra seeds."""
 import asyncio
 import json
 import os
@@ -357,10 +359,77 @@ def shrink_login(f):
 # ------------------------------------------------------------------------------------------------
 # paired driver scenarios over SimDevice (observed)
 # ------------------------------------------------------------------------------------------------
-def pair_suite(rep, thorough, focus_kinds=None, extra=0):
+def _tally(dist, sc, a):
+    dist["kinds"][sc["kind"]] = dist["kinds"].get(sc["kind"], 0) + 1
+    dist["families"][sc.get("family", "mixed")] = dist["families"].get(sc.get("family", "mixed"), 0) + 1
+    dist["policies"][sc["policy"][0]] = dist["policies"].get(sc["policy"][0], 0) + 1
+    fk = "none"
+    if sc.get("fault"):
+        fk = sorted(k for k in sc["fault"] if k != "exc")[0]
+    elif sc["device"].get("silent_after") is not None:
+        fk = "silent_after"
+    elif sc["device"].get("refuse") or sc["device"].get("ignore"):
+        fk = "refuse/ignore"
+    dist["faults"][fk] = dist["faults"].get(fk, 0) + 1
+    for op, o in zip(sc["ops"], a["ops"]):
+        dist["ops"][op[0]] = dist["ops"].get(op[0], 0) + 1
+        dist["op_outcomes"][o[0]] = dist["op_outcomes"].get(o[0], 0) + 1
+        if o[0] == "exc":
+            dist["exceptions"][o[1]] = dist["exceptions"].get(o[1], 0) + 1
+        if op[0] in ("send_interactive", "channel_send_inputs_interact") and len(op[1]) > 1:
+            it = dist["interactive"]
+            it["dialogues"] += 1
+            it["events_hist"][len(op[1])] = it["events_hist"].get(len(op[1]), 0) + 1
+            resp = [e[1] for e in op[1]]
+            it["same_response_in_a_row"] += 1 if any(x == y for x, y in zip(resp, resp[1:])) else 0
+            it["hidden_inputs"] += 1 if any(len(e) > 2 and e[2] for e in op[1]) else 0
+            kw = op[2] if len(op) > 2 else {}
+            it["with_complete_patterns"] += 1 if kw.get("interaction_complete_patterns") else 0
+            it["outcomes"][o[0] if o[0] != "exc" else o[1]] = it["outcomes"].get(o[0] if o[0] != "exc" else o[1], 0) + 1
+    tr = a.get("dialogue", [])
+    if tr:
+        it = dist["interactive"]
+        it["device_skipped_a_question"] += 1 if any(x.startswith("skip") for x in tr) else 0
+        it["device_refused_an_answer"] += 1 if any(x.startswith("refused") for x in tr) else 0
+        it["left_open"] += 1 if tr[-1] == "open" else 0
+        it["hidden_answers_typed"] += len(a["hidden"])
+
+
+def _new_dist():
+    return {"scenarios": 0, "kinds": {}, "families": {}, "policies": {}, "faults": {}, "ops": {}, "op_outcomes": {}, "exceptions": {},
+            "interactive": {"dialogues": 0, "events_hist": {}, "same_response_in_a_row": 0, "hidden_inputs": 0,
+                            "with_complete_patterns": 0, "outcomes": {}, "device_skipped_a_question": 0,
+                            "device_refused_an_answer": 0, "left_open": 0, "hidden_answers_typed": 0}}
+
+
+def _run_pairs(rep, P, scs, dist, label, reported, limit=3):
+    """both real stacks on every scenario, compared with each other; the first `limit` differences are shrunk and reported"""
+    sy = [P.run_sync(sc) for sc in scs]
+    asy = P.run_async_batch(scs)
+    nfail = 0
+    for sc, a, b in zip(scs, sy, asy):
+        dist["scenarios"] += 1
+        _tally(dist, sc, a)
+        rep.case(("pair", json.dumps(sc, sort_keys=True)), nontrivial=len(a["device_log"]) > 0)
+        d = P.diff_obs(a, b)
+        if d:
+            nfail += 1
+            if reported[0] < limit:
+                reported[0] += 1
+                sc2, a2, b2, d2 = shrink_pair(P, sc, a, b, d)
+                rep.violation("sync and asyncio %s stacks differ in %s on ops %s%s" % (
+                    sc2["kind"], d2, json.dumps([o[0] for o in sc2["ops"]]), label),
+                    {"suite": "twin-diff", "scenario": sc2, "differs_in": d2,
+                     "sync": {k: a2[k] for k in d2}, "async": {k: b2[k] for k in d2},
+                     "rerun": "./check C06 --replay <this file>"})
+    return nfail, sy
+
+
+def pair_suite(rep, thorough):
     from . import c06_pairs as P
     rng = rep.rng
-    n = (30000 if thorough else 700) + extra
+    n = 30000 if thorough else 700
+    n_inter = 6000 if thorough else 220          # interactive dialogues on top of the mixed scenarios
     scs = list(P.corpus())
     for f in rep.findings:
         if f.get("replay"):
@@ -371,46 +440,70 @@ def pair_suite(rep, thorough, focus_kinds=None, extra=0):
             except Exception as e:  # noqa
                 rep.notes.append("finding replay unreadable: %s" % e)
     for i in range(n):
-        kind = None
-        if focus_kinds and i < extra:
-            kind = rng.choice(focus_kinds)
-        scs.append(P.gen_scenario(rng, kind=kind))
-    sy = [P.run_sync(sc) for sc in scs]
-    asy = P.run_async_batch(scs)
-    dist = {"scenarios": len(scs), "kinds": {}, "policies": {}, "faults": {}, "ops": {}, "op_outcomes": {}, "exceptions": {}}
-    nfail = 0
-    for sc, a, b in zip(scs, sy, asy):
-        dist["kinds"][sc["kind"]] = dist["kinds"].get(sc["kind"], 0) + 1
-        dist["policies"][sc["policy"][0]] = dist["policies"].get(sc["policy"][0], 0) + 1
-        fk = "none"
-        if sc.get("fault"):
-            fk = sorted(k for k in sc["fault"] if k != "exc")[0]
-        elif sc["device"].get("silent_after") is not None:
-            fk = "silent_after"
-        elif sc["device"].get("refuse") or sc["device"].get("ignore"):
-            fk = "refuse/ignore"
-        dist["faults"][fk] = dist["faults"].get(fk, 0) + 1
-        for op, o in zip(sc["ops"], a["ops"]):
-            dist["ops"][op[0]] = dist["ops"].get(op[0], 0) + 1
-            dist["op_outcomes"][o[0]] = dist["op_outcomes"].get(o[0], 0) + 1
-            if o[0] == "exc":
-                dist["exceptions"][o[1]] = dist["exceptions"].get(o[1], 0) + 1
-        rep.case(("pair", json.dumps(sc, sort_keys=True)), nontrivial=len(a["device_log"]) > 0)
-        d = P.diff_obs(a, b)
-        if d:
-            nfail += 1
-            if nfail <= 3:
-                sc2, a2, b2, d2 = shrink_pair(P, sc, a, b, d)
-                rep.violation("sync and asyncio %s stacks differ in %s on ops %s" % (
-                    sc2["kind"], d2, json.dumps([o[0] for o in sc2["ops"]])),
-                    {"suite": "twin-diff", "scenario": sc2, "differs_in": d2,
-                     "sync": {k: a2[k] for k in d2}, "async": {k: b2[k] for k in d2},
-                     "rerun": "./check C06 --replay <this file>"})
+        scs.append(P.gen_scenario(rng))
+    for i in range(n_inter):
+        scs.append(P.gen_scenario(rng, family="interactive", faulty=(rng.random() < 0.15)))
+    dist = _new_dist()
+    nfail, sy = _run_pairs(rep, P, scs, dist, "", [0])
     if sy:
         k = min(len(sy) - 1, 20)
         rep.sample({"suite": "twin-diff", "scenario": scs[k], "sync_ops": sy[k]["ops"][:3], "sent": sy[k]["sent"][:120]})
+        for sc, a in zip(scs, sy):
+            if sc.get("family") == "interactive" and any(x.startswith("skip") for x in a.get("dialogue", [])):
+                rep.sample({"suite": "twin-diff", "scenario": sc, "sync_ops": a["ops"][:3], "dialogue": a["dialogue"]})
+                break
     rep.coverage["twin_diff"] = {"distribution": dist, "stack_differences": nfail}
     return nfail
+
+
+PLATFORM_PAIRS = ("cisco_iosxe", "cisco_iosxr", "cisco_nxos", "arista_eos", "juniper_junos")
+ALL_KINDS = ["generic", "network"] + list(PLATFORM_PAIRS)
+
+
+def focus_plan(focus):
+    """twin-table function -> (driver kinds, scenario families) whose scenarios reach it"""
+    from . import c06_pairs as P
+    plan = {}
+    for fn in focus:
+        pair = fn.split(":")[0]
+        if pair == "telnet":
+            continue                          # the transports have their own suite (run at thorough size)
+        if pair in PLATFORM_PAIRS:
+            kinds = [pair]
+        elif pair == "driver_network":
+            kinds = ["network"] + list(PLATFORM_PAIRS)
+        else:
+            kinds = list(ALL_KINDS)
+        plan[fn] = (kinds, P.families_of(fn))
+    return plan
+
+
+def focus_search(rep, focus, thorough):
+    """A twin-diff obligation broke for the functions in `focus`: before giving up with no-failing-input-found, run the
+    scenario families that exercise each of them, on the driver kinds that reach it, with extra seeds (a fresh generator
+    per round, derived from VERIF_SEED), until one round shows a difference between the stacks."""
+    import random
+    from . import c06_pairs as P
+    plan = focus_plan(focus)
+    rounds, per = (24, 1500) if thorough else (8, 400)
+    out = {"plan": {fn: {"kinds": k, "families": f} for fn, (k, f) in plan.items()}, "rounds": 0, "scenarios": 0, "stack_differences": 0}
+    dist = _new_dist()
+    reported = [0]
+    for fn, (kinds, fams) in sorted(plan.items()):
+        found = 0
+        for k in range(rounds):
+            rng = random.Random("C06-focus-%d-%s-%d" % (rep.seed, fn, k))
+            scs = [P.gen_scenario(rng, kind=rng.choice(kinds), family=rng.choice(fams)) for _ in range(per)]
+            nf, _ = _run_pairs(rep, P, scs, dist, " (searching around the changed twin %s, extra seed %d)" % (fn, k), reported)
+            out["rounds"] += 1
+            out["scenarios"] += len(scs)
+            found += nf
+            if nf:
+                break
+        out["stack_differences"] += found
+    out["distribution"] = dist
+    rep.coverage["focus_search"] = out
+    return out["stack_differences"]
 
 
 def shrink_pair(P, sc, a, b, d):
@@ -436,6 +529,14 @@ def shrink_pair(P, sc, a, b, d):
         dd, x, y = differs(t)
         if dd:
             cur, ca, cb, cd = t, x, y, dd
+    # device description: drop the outputs / dialogues / questions' extras the difference does not need
+    for key in ("outputs", "dialogs"):
+        for name in sorted(cur["device"].get(key) or {}):
+            t = json.loads(json.dumps(cur))
+            del t["device"][key][name]
+            dd, x, y = differs(t)
+            if dd:
+                cur, ca, cb, cd = t, x, y, dd
     return cur, ca, cb, cd
 
 
@@ -600,22 +701,8 @@ def run(rep):
     rep.checker_cmd = ("coqc -Q coq Verif -Q _build/C06 Gen: static make (model/Twins.v, proofs/Twins_Proofs.v), Gen_Twins.v, "
                        "props/C06.v with Print Assumptions; cases_c06_login_*.v by vm_compute")
     info, focus = structural(rep)
-    # a twin function changed outside the committed list: search harder around it
-    focus_kinds, extra_login, extra_pairs = None, 0, 0
-    if focus:
-        kinds = set()
-        for fn in focus:
-            pair = fn.split(":")[0]
-            if pair in ("cisco_iosxe", "cisco_iosxr", "cisco_nxos", "arista_eos", "juniper_junos"):
-                kinds.add(pair)
-            elif pair == "driver_generic":
-                kinds.update(["generic", "network"])
-            elif pair != "telnet":
-                kinds.update(["generic", "network", "cisco_iosxe", "cisco_iosxr", "cisco_nxos", "arista_eos", "juniper_junos"])
-            if "authenticate" in fn:
-                extra_login = 1500
-        focus_kinds = sorted(kinds) or None
-        extra_pairs = 3000
+    # a twin function changed outside the committed list: search harder around it (see focus_search)
+    extra_login = 1500 if any("authenticate" in fn for fn in focus) else 0
     if thorough and not rep.broken:
         # independent re-check of the compiled property file by the standalone checker
         rc, out, _ = common.sh(["timeout", "600", "coqchk", "-o", "-silent", "-Q", common.COQ, "Verif", "-Q", rep.workdir, "Gen", "Gen.C06"],
@@ -625,7 +712,9 @@ def run(rep):
             rep.broken.append("coqchk props/C06.vo")
             rep.notes.append(out[-2000:])
     login_suite(rep, thorough, extra=extra_login)
-    pair_suite(rep, thorough, focus_kinds=focus_kinds, extra=extra_pairs)
+    pair_suite(rep, thorough)
+    if focus:
+        focus_search(rep, focus, thorough)
     telnet_suite(rep, thorough or bool(focus))
     try:
         probe_open_refused(rep)
@@ -636,6 +725,12 @@ def run(rep):
                 "20 ms poll expiries inserted); mostly-valid dialogues chunked 1/2/3/5/whole + 30% malformed event lists + corpus; "
                 "twin-diff: SimDevice scenarios = platform x login mode x enable secret x outputs x chunking policy x fault "
                 "(drop/write error/silence/transient error/refused or ignored transition) x 1-6 operations, both real stacks; "
+                "+ the interactive family: send_interactive / channel send_inputs_interact against device dialogues of 1-4 questions "
+                "(same expected response several times in a row, questions the device skips or answers it refuses so that it is back "
+                "at its prompt with events still queued, hidden answers, client knowing fewer / more questions than the device) x "
+                "interaction_complete_patterns (none / empty / prompt regex / literal / one that is already in an earlier event's "
+                "output) followed by ordinary operations; when a twin-diff obligation breaks: focus_search = the families mapped to "
+                "the changed function (c06_pairs.FN_FAMILY) on the driver kinds that reach it, up to 8 (thorough 24) extra seeds; "
                 "telnet: grammar + malformed streams, every single cut + 1-byte + random cuts, both real transports; "
                 "non-trivial = the device executed at least one line / more than one event / at least one command; "
                 "distinct = whole scenario")
@@ -707,13 +802,18 @@ MANIFEST = {
             "the polling asyncio loop equals the blocking sync loop; the pinned commit's asyncio loop (no except ScrapliConnectionError) is "
             "refuted by a vm_compute witness, with the partial statement for error-free histories. "
             "PARTIAL: equality of bytes sent / results / exception classes of the full driver stacks is OBSERVED on paired SimDevice scenarios "
-            "(ops x devices x chunkings x faults), on both real Telnet transports over scripted sockets and by two runtime probes, comparing the "
-            "two stacks with each other; it is not a theorem.",
+            "(ops x devices x chunkings x faults, incl. multi-event interactive dialogues: repeated expected responses, "
+            "interaction_complete_patterns, questions the device skips with events still queued, hidden inputs), on both real Telnet "
+            "transports over scripted sockets and by two runtime probes, comparing the two stacks with each other; it is not a theorem. "
+            "A broken twin-diff obligation for function F triggers a search over the scenario families that exercise F with extra seeds.",
     "note": "Trusted: Coq kernel + vm_compute; gen/gen_twins.py (inspect/ast/tokenize of the current tree; the diff hash is computed there); the "
             "normaliser parameters (drop async/await, 15-name rename table) and the reviewed reasons in c06_allowed.json — a function on that list is "
             "only protected by its diff hash and by the behavioural suites; the login model coq/model/Twins.v is tied to the real "
             "channel_authenticate_telnet/_ssh of both stacks by vm_compute correspondence on generated event lists with a scripted clock and real "
-            "20 ms wait_for expiries (patterns restricted to literals; regexes are C09's). Not modelled: asyncio scheduler, cancellation inside "
+            "20 ms wait_for expiries (patterns restricted to literals; regexes are C09's). The interactive-dialogue scenarios (send_interactive / send_inputs_interact over "
+            "c06_pairs.DialogDevice) are oracle-only: there is no Coq model of the interact loop, its sync/asyncio equality rests on the token "
+            "identity obligation of Channel.send_inputs_interact plus the direct comparison of the two real stacks; the function -> scenario "
+            "family map (c06_pairs.FN_FAMILY) is hand-written, an unmapped function gets every family. Not modelled: asyncio scheduler, cancellation inside "
             "transport reads, signal/thread timeouts, real sockets. Known findings (listed, still reported): sync Telnet stops answering after 10 "
             "negotiation commands while asyncio keeps answering; a refused Telnet connection raises ScrapliConnectionNotOpened (sync) vs "
             "ScrapliConnectionError (asyncio).",
